@@ -304,7 +304,7 @@ func (s *Sim) After(bz []byte, o appdrv.TxOut) {
 			}
 		}
 	case ctrlertypes.TRX_STAKING:
-		s.Stakes = append(s.Stakes, StakeRef{Owner: s.keyIdx(tx.From), To: tx.To, Hash: hash})
+		s.Stakes = append(s.Stakes, StakeRef{Owner: s.keyIdx(tx.From), To: tx.To, Hash: hash, Power: new(uint256.Int).Div(tx.Amount, E18).ToBig().Int64()})
 	case ctrlertypes.TRX_PROPOSAL:
 		p := tx.Payload.(*ctrlertypes.TrxPayloadProposal)
 		s.Props = append(s.Props, PropRef{Hash: hash, Start: p.StartVotingHeight, End: p.StartVotingHeight + p.VotingPeriodBlocks,
